@@ -500,6 +500,46 @@ func vdBinary[T uint32 | uint64](st *vdState, su vdSuite[T], subName string, sub
 	}
 }
 
+// vdBinarySelfWrapped: the operand is ANOTHER provider object - the thread-safe wrapper - over the receiver's own set
+// (ThreadSafeDuplex does not copy what it wraps). The operation then is "A op A": Or and And leave A, AndNot and Xor
+// empty it. The fallback paths iterate the operand while they change the receiver, i.e. the very bitmap they iterate.
+func vdBinarySelfWrapped[T uint32 | uint64](st *vdState, su vdSuite[T], subName string, sub []T) {
+	n := 1 << uint(len(sub))
+	for ia := 0; ia < n; ia++ {
+		a := vdSubset(sub, ia)
+		ma := vdModelOf(a)
+		for _, op := range vdBinaryOps {
+			want := vdModelBinary(op, ma, ma).sorted()
+			for _, ri := range su.impls[:2] { // the two bare constructions
+				st.guard(func() string {
+					return fmt.Sprintf("binary %s/%s receiver=%s%s .%s( operand=ThreadSafeDuplex(the receiver itself) )", su.typ, subName, ri.name, vdFmt(a), op)
+				}, func() string {
+					recv := ri.mk(a)
+					done := make(chan string, 1)
+					go func() {
+						defer func() {
+							if r := recover(); r != nil {
+								done <- fmt.Sprintf("panic: %v", r)
+							}
+						}()
+						vdApplyBinary[T](op, recv, ThreadSafeDuplex(recv))
+						done <- vdObserve(recv, want, su.universe)
+					}()
+					select {
+					case d := <-done:
+						if d != "" {
+							return "receiver afterwards: " + d
+						}
+						return ""
+					case <-time.After(10 * time.Second):
+						return "the operation did not return within 10 s"
+					}
+				})
+			}
+		}
+	}
+}
+
 type vdUnaryOp[T uint32 | uint64] struct {
 	kind string // Add, Remove, CheckedAdd, Clear
 	x    T
@@ -1020,6 +1060,7 @@ func vdRunSuite[T uint32 | uint64](st *vdState, su vdSuite[T], k int, seed int64
 	for _, sub := range subs {
 		if parts["binary"] {
 			vdBinary(st, su, sub.name, sub.vals, rng)
+			vdBinarySelfWrapped(st, su, sub.name, sub.vals)
 		}
 		if parts["addmany"] {
 			vdAddMany(st, su, sub.name, sub.vals, rng)
